@@ -1,5 +1,6 @@
 import Qats.Lemmas.EstMain
 import Qats.Lemmas.EstMsm
+import Qats.Lemmas.EstPopulation
 /-!
 # C16 — estimators are equivariant, moment-exact and consistent; minima mirror maxima
 
@@ -104,5 +105,109 @@ theorem weibullMsmGiven_equivariant (c : ℝ) (xs : List ℝ) (a b : ℝ) (ha : 
     weibullMsmGiven c (xs.map fun x => a * x + b) =
       (a * (weibullMsmGiven c xs).1 + b, a * (weibullMsmGiven c xs).2.1, c) :=
   weibullMsmGiven_equivariant' c xs a b ha hn
+
+/-! ### Population-level exactness of the closed-form Gumbel estimators
+
+`gumbel.pwm` uses `m0 = mk(x, 0)` (sample mean) and `m1 = mk(x, 1)`, the unbiased sample version of
+`M_{1,0,1} = E[X·(1 − F(X))]` (weights `(n−i)/(n−1)` on the ascending sample). Below the sample moments are replaced by
+the population moments of the generated density / cdf `gu_pdf`, `gu_cdf`:
+`β0 = ∫ x·f`, `β1 = ∫ x·F·f`, `M101 = ∫ x·(1 − F)·f = β0 − β1`.
+NOTE: the source's formula `b = (m0 − 2·m1)/log 2` is exact for `m1 = M101`; with `β1 = E[X·F]` in the place of `m1` it
+would return `−scale` (`(β0 − 2·β1)/log 2 = −scale`).
+That `mk(x, k)` converges to `M_{1,0,k}` for large samples is not proved (measured by the harness). -/
+
+/-- Max-stability: `F(x)²` is the cdf of Gumbel(loc + scale·log 2, scale). -/
+theorem gu_cdf_sq (loc scale x : ℝ) (hs : scale ≠ 0) :
+    gu_cdf loc scale x ^ 2 = gu_cdf (loc + scale * Real.log 2) scale x :=
+  Est.gu_cdf_sq' loc scale x hs
+
+/-- `F·f = ½·f_shifted`. -/
+theorem gu_cdf_mul_pdf (loc scale x : ℝ) (hs : scale ≠ 0) :
+    gu_cdf loc scale x * gu_pdf loc scale x = 1 / 2 * gu_pdf (loc + scale * Real.log 2) scale x :=
+  Est.gu_cdf_mul_pdf' loc scale x hs
+
+/-- `β1 = ∫ x·F(x)·f(x) dx = ½·(loc + scale·log 2 + γ·scale)`. -/
+theorem gumbel_beta1 (loc scale : ℝ) (hs : 0 < scale) :
+    MeasureTheory.Integrable (fun x => x * gu_cdf loc scale x * gu_pdf loc scale x) ∧
+      ∫ x, x * gu_cdf loc scale x * gu_pdf loc scale x =
+        1 / 2 * (loc + scale * Real.log 2 + Real.eulerMascheroniConstant * scale) :=
+  Est.gu_beta1' loc scale hs
+
+/-- `M101 = ∫ x·(1 − F(x))·f(x) dx = ½·(loc + γ·scale − scale·log 2)`, the population counterpart of `mk(x, 1)`. -/
+theorem gumbel_m101 (loc scale : ℝ) (hs : 0 < scale) :
+    MeasureTheory.Integrable (fun x => x * (1 - gu_cdf loc scale x) * gu_pdf loc scale x) ∧
+      ∫ x, x * (1 - gu_cdf loc scale x) * gu_pdf loc scale x =
+        1 / 2 * (loc + Real.eulerMascheroniConstant * scale - scale * Real.log 2) :=
+  Est.gu_m101' loc scale hs
+
+/-- `M101 = β0 − β1`. -/
+theorem gumbel_m101_eq_sub (loc scale : ℝ) (hs : 0 < scale) :
+    ∫ x, x * (1 - gu_cdf loc scale x) * gu_pdf loc scale x =
+      (∫ x, x * gu_pdf loc scale x) - ∫ x, x * gu_cdf loc scale x * gu_pdf loc scale x :=
+  Est.gu_m101_eq_sub' loc scale hs
+
+/-- The PWM formulas at the population moments, `γ` in the place of the source's literal: exactly `(loc, scale)`. -/
+theorem gumbel_pwm_population_exact (loc scale : ℝ) (hs : 0 < scale) :
+    let m0 := ∫ x, x * gu_pdf loc scale x
+    let m1 := ∫ x, x * (1 - gu_cdf loc scale x) * gu_pdf loc scale x
+    let b := gu_pwm_b m0 m1
+    (m0 - Real.eulerMascheroniConstant * b, b) = (loc, scale) :=
+  Est.gumbel_pwm_population_exact' loc scale hs
+
+/-- The generated formulas as they are (with the literal): the scale is exact and the location is
+`loc + (γ − 0.5772156649015329)·scale`. -/
+theorem gumbel_pwm_population (loc scale : ℝ) (hs : 0 < scale) :
+    gu_pwm_b (∫ x, x * gu_pdf loc scale x) (∫ x, x * (1 - gu_cdf loc scale x) * gu_pdf loc scale x) = scale ∧
+    gu_pwm_a (gu_pwm_b (∫ x, x * gu_pdf loc scale x) (∫ x, x * (1 - gu_cdf loc scale x) * gu_pdf loc scale x))
+        (∫ x, x * gu_pdf loc scale x) = loc + (Real.eulerMascheroniConstant - 0.5772156649015329) * scale :=
+  Est.gumbel_pwm_population' loc scale hs
+
+/-- Explicit error: 0 in the scale, `|c − γ|·scale` in the location, which Mathlib's `1/2 < γ < 2/3` bounds by
+`scale/10` (numerically `|c − γ| ≈ 5e-17`; the harness compares the literal with `numpy.euler_gamma`). -/
+theorem gumbel_pwm_population_error (loc scale : ℝ) (hs : 0 < scale) :
+    let m0 := ∫ x, x * gu_pdf loc scale x
+    let m1 := ∫ x, x * (1 - gu_cdf loc scale x) * gu_pdf loc scale x
+    let b := gu_pwm_b m0 m1
+    b = scale ∧ |gu_pwm_a b m0 - loc| = |(0.5772156649015329 : ℝ) - Real.eulerMascheroniConstant| * scale ∧
+      |gu_pwm_a b m0 - loc| < scale / 10 :=
+  Est.gumbel_pwm_population_error' loc scale hs
+
+/-- Tie to the model's composition: an ascending sample whose `mk xs 0`, `mk xs 1` equal the population moments is
+fitted by `gumbelPwm` with the exact scale and the location `loc + (γ − c)·scale`. -/
+theorem gumbelPwm_of_population_moments (xs : List ℝ) (loc scale : ℝ) (hs : 0 < scale)
+    (h0 : mk xs 0 = ∫ x, x * gu_pdf loc scale x)
+    (h1 : mk xs 1 = ∫ x, x * (1 - gu_cdf loc scale x) * gu_pdf loc scale x) :
+    gumbelPwm xs = (loc + (Real.eulerMascheroniConstant - 0.5772156649015329) * scale, scale) :=
+  Est.gumbelPwm_of_population_moments' xs loc scale hs h0 h1
+
+/-- Such samples exist for every `loc` and `scale > 0` (a two-point sample). -/
+theorem population_sample_exists (loc scale : ℝ) (hs : 0 < scale) :
+    ∃ xs : List ℝ, xs.Pairwise (· ≤ ·) ∧ mk xs 0 = (∫ x, x * gu_pdf loc scale x) ∧
+      mk xs 1 = ∫ x, x * (1 - gu_cdf loc scale x) * gu_pdf loc scale x :=
+  Est.population_sample_exists' loc scale hs
+
+/-- Method of moments restricted to the mean (location given the scale): `gu_msm_a` at the population mean and the true
+scale returns `loc + (γ − c)·scale`. (The scale step needs the variance `π²/6·scale²` of the density: not proved.) -/
+theorem gumbel_msm_population_loc_partial (loc scale : ℝ) (hs : 0 < scale) :
+    gu_msm_a scale (∫ x, x * gu_pdf loc scale x) =
+      loc + (Real.eulerMascheroniConstant - 0.5772156649015329) * scale :=
+  Est.gumbel_msm_population_loc' loc scale hs
+
+/-- Same for the minima distribution (`gumbelmin.msm`: `a = mean + c·b`; the mean of `gm_pdf` is `loc − γ·scale`). -/
+theorem gumbelMin_msm_population_loc_partial (loc scale : ℝ) (hs : 0 < scale) :
+    gm_msm_a scale (∫ x, x * gm_pdf loc scale x) =
+      loc - (Real.eulerMascheroniConstant - 0.5772156649015329) * scale :=
+  Est.gumbelMin_msm_population_loc' loc scale hs
+
+/- Full statement not proved (missing: `∫ (x − mean)²·gu_pdf = π²/6·scale²`, i.e. `Γ''(1) = γ² + π²/6`):
+   gumbel_msm_population : gu_msm_b (√(∫ (x − β0)²·gu_pdf loc scale x)) = scale ∧ gu_msm_a scale β0 = loc + (γ − c)·scale -/
+
+/-- Non-vacuity of the population theorems: the hypotheses `scale ≠ 0`, `0 < scale` hold for the unit Gumbel, and the
+sample hypotheses of `gumbelPwm_of_population_moments` are satisfiable (`population_sample_exists`). -/
+example : (1 : ℝ) ≠ 0 ∧ (0 : ℝ) < 1 := by norm_num
+example : ∃ xs : List ℝ, mk xs 0 = (∫ x, x * gu_pdf 0 1 x) ∧
+    mk xs 1 = ∫ x, x * (1 - gu_cdf 0 1 x) * gu_pdf 0 1 x := by
+  obtain ⟨xs, -, h⟩ := population_sample_exists 0 1 (by norm_num)
+  exact ⟨xs, h⟩
 
 end Qats.Props.C16
